@@ -662,6 +662,9 @@ func genC09(out *Out, r *Rng, tier string, n int, shard int) {
 		if i%3 == 0 {
 			emitHTTP(out, r, is)
 		}
+		for k := 0; k < 6; k++ {
+			emitStatusOverHTTP(out, r, is, revoked)
+		}
 	}
 }
 
